@@ -479,6 +479,8 @@ StreamAlive(c) ==
     /\ p.op = "StreamOpen" /\ p.sub \in DOMAIN smap /\ S[smap[p.sub]].st = "live"
     /\ smap[p.sub] \in SubLookups(Win(c), p.sub)
 
+PubN(p) == IF "n" \in DOMAIN p THEN p.n ELSE Len(p.msgs)
+
 QuietTag(isPull, abandoned) ==
     CASE isPull /\ abandoned -> "C06,C15,C16"
       [] isPull /\ ~abandoned -> "C06,C15"
@@ -503,8 +505,16 @@ EvGuards(e) ==
       [] e.k = "m.ls" -> MgrListSubs_G(ProjOf, e.project, e.skip, e.size, e.out, e.next)
       [] e.k = "r.set" ->
             LET after == RegAfterSet(e.name, e.set, e.endpoint) IN
-            { G("DRIFT", e.endpoint = (IF e.name \in DOMAIN after THEN after[e.name] ELSE "")) }
-      [] e.k = "t.accept" -> TopicAccept_G(e.ti, e.ids, SeqSet(e.fan))
+            { G("DRIFT", e.endpoint = (IF e.name \in DOMAIN after THEN after[e.name] ELSE "")),
+              \* a live push subscription is never unregistered (only one that is being deleted is)
+              G("C14", ~e.set => ~(e.name \in DOMAIN smap /\ S[smap[e.name]].st = "live" /\ S[smap[e.name]].push # "")) }
+      [] e.k = "t.accept" -> TopicAccept_G(e.ti, e.ids, SeqSet(e.fan)) \cup
+            \* one accepting turn of the topic = one whole Publish request (in flight, or abandoned by
+            \* its caller): a turn that accepts only a part of a request makes the request's fate
+            \* depend on when its caller goes away (C16) and lets other requests in between (C08)
+            { G(IF \E g \in gone : g.op = "Publish" THEN "C08,C16" ELSE "C08",
+                \/ \E c \in DOMAIN pend : pend[c].e.op = "Publish" /\ PubN(pend[c].e) = Len(e.ids)
+                \/ \E g \in gone : g.op = "Publish" /\ PubN(g) = Len(e.ids)) }
       [] e.k = "t.attach" ->
             IF "skipped" \in DOMAIN e /\ e.skipped
             THEN \* the topic refused the attach: only a subscription that is on its way out may be refused
